@@ -27,6 +27,10 @@ RULE = (
     "finished batch, and that an item created during the flush joined a different, pending batch. "
     "distinct = (class, mode, sequence); non-trivial = the batch finished and something was observed afterwards."
 )
+RULE += (
+    " After every operation on a finished batch: its item list never grows (also after an add-item that was "
+    "rightly refused) and lists no pending item."
+)
 ASSUMPTIONS = ["items are not completed by hand before the flush (that is C10's territory)"]
 UNIT_TIMEOUT = {"quick": 300, "thorough": 2400}
 
